@@ -1,5 +1,6 @@
 import Tpp.Driver.Run
 import Tpp.Ref.Designators
+import Tpp.Driver.TermOracle
 /-!
 Property oracles evaluated on the IMPLEMENTATION's observed answers (second driver pass).
 Input: `O<kind><case> # <real answer>`; output `ok` or `FAIL <property ids and details>`.
@@ -61,6 +62,7 @@ def runOracle (line : String) : String :=
   | 'N' => oracleEncodeCs rest real
   | 'H' => oracleHigh rest real
   | 'Y' => oracleGrey rest real
+  | 'T' => oracleTerminal cfg rest real
   | _ =>
     (Values.oracle kind cfg rest real <|> Canvas.oracle kind cfg rest real <|> Input.oracle kind cfg rest real
       <|> Markup.oracle kind cfg rest real <|> Strings.oracle kind cfg rest real
